@@ -628,6 +628,7 @@ cfoldBCall(Foam bcall)
 		if (!cfoldFoldAll) break;
 		assert(foamTag(argv[0]) == FOAM_SInt);
 		assert(foamTag(argv[1]) == FOAM_SInt);
+		if (argv[1]->foamSInt.SIntData == 0) break; /* leave it to run time */
 		foam = foamNewSInt(argv[0]->foamSInt.SIntData %
 				   argv[1]->foamSInt.SIntData);
 		break;
@@ -635,6 +636,7 @@ cfoldBCall(Foam bcall)
 		if (!cfoldFoldAll) break;
 		assert(foamTag(argv[0]) == FOAM_SInt);
 		assert(foamTag(argv[1]) == FOAM_SInt);
+		if (argv[1]->foamSInt.SIntData == 0) break; /* leave it to run time */
 		foam = foamNewSInt(argv[0]->foamSInt.SIntData /
 				   argv[1]->foamSInt.SIntData);
 		break;
@@ -642,6 +644,7 @@ cfoldBCall(Foam bcall)
 		if (!cfoldFoldAll) break;
 		assert(foamTag(argv[0]) == FOAM_SInt);
 		assert(foamTag(argv[1]) == FOAM_SInt);
+		if (argv[1]->foamSInt.SIntData == 0) break; /* leave it to run time */
 		foam = foamNewSInt(argv[0]->foamSInt.SIntData %
 				   argv[1]->foamSInt.SIntData);
 		break;
@@ -657,6 +660,7 @@ cfoldBCall(Foam bcall)
 		assert(foamTag(argv[0]) == FOAM_SInt);
 		assert(foamTag(argv[1]) == FOAM_SInt);
 		assert(foamTag(argv[2]) == FOAM_SInt);
+		if (argv[2]->foamSInt.SIntData == 0) break; /* leave it to run time */
 		n = argv[0]->foamSInt.SIntData + argv[1]->foamSInt.SIntData;
 		foam = foamNewSInt(n % argv[2]->foamSInt.SIntData);
 		break;
@@ -665,6 +669,7 @@ cfoldBCall(Foam bcall)
 		assert(foamTag(argv[0]) == FOAM_SInt);
 		assert(foamTag(argv[1]) == FOAM_SInt);
 		assert(foamTag(argv[2]) == FOAM_SInt);
+		if (argv[2]->foamSInt.SIntData == 0) break; /* leave it to run time */
 		n = argv[0]->foamSInt.SIntData - argv[1]->foamSInt.SIntData;
 		foam = foamNewSInt(n % argv[2]->foamSInt.SIntData);
 		break;
@@ -673,6 +678,7 @@ cfoldBCall(Foam bcall)
 		assert(foamTag(argv[0]) == FOAM_SInt);
 		assert(foamTag(argv[1]) == FOAM_SInt);
 		assert(foamTag(argv[2]) == FOAM_SInt);
+		if (argv[2]->foamSInt.SIntData == 0) break; /* leave it to run time */
 		n = argv[0]->foamSInt.SIntData * argv[1]->foamSInt.SIntData;
 		foam = foamNewSInt(n % argv[2]->foamSInt.SIntData);
 		break;
